@@ -20,7 +20,7 @@ EFFECT_KEYS = {
     "backend.local.port": ["12345", "4242", "1"],
 }
 VALUES = ["0", "12", "007", "yes", "no", "true", "false", "True", "YES", "", "hello world", "1.5", "-", "x=y", "12a",
-          "é", "null", "[1]", "9999999999999999999999"]
+          "é", "null", "[1]", "9999999999999999999999", "caf\udce9"]
 
 
 def coerce(value):
@@ -56,7 +56,10 @@ class ConfScenario(WorldScenario):
             keys = list(self.m_conf) + ROUNDTRIP_KEYS[:6] + list(EFFECT_KEYS)[:3] + ["never.set"]
             return {"op": "conf_unset", "key": r.pick(keys), "cwd": cwd}
         if x < 0.62:
-            keys = list(self.m_conf) + ROUNDTRIP_KEYS[:4] + ["verbose", "never.set"]
+            # a value that cannot be printed (undecodable bytes on the command line) is not read back
+            keys = [k for k, v in self.m_conf.items() if not (isinstance(v, str) and "\udce9" in v)]
+            keys += ROUNDTRIP_KEYS[:4] + ["verbose", "never.set"]
+            keys = [k for k in keys if not (isinstance(self.m_conf.get(k), str) and "\udce9" in self.m_conf.get(k))]
             return {"op": "conf_get", "key": r.pick(keys), "cwd": cwd}
         if x < 0.66:
             return {"op": "env_no_color", "on": r.chance(0.5)}
